@@ -9,6 +9,8 @@
 mod common;
 mod c12;
 mod c13;
+mod c14;
+mod c15;
 
 use common::*;
 
@@ -29,6 +31,8 @@ fn main() {
     match prop {
         "C12" => c12::run(&mut em, &mut rng, thorough),
         "C13" => c13::run(&mut em, &mut rng, thorough),
+        "C14" => c14::run(&mut em, &mut rng, thorough),
+        "C15" => c15::run(&mut em, &mut rng, thorough),
         _ => { eprintln!("unknown property {}", prop); std::process::exit(2); }
     }
     em.finish();
